@@ -172,6 +172,19 @@ func (e *Env) encodeRules(l *facts.Level) {
 	for _, why := range badRep {
 		c.Undecided("encode-emissions", who+" names representation", pos, why)
 	}
+	if l.Embedded != nil {
+		// the embedded lower object of an object that comes from a constructor is never nil (constructor-fresh: the
+		// constructor allocates it; write-ownership: nobody else sets the field): a path that needs it to be nil
+		// (if m.Base != nil { write m.Base.String() }) is not a path of such an object
+		embNil := ir.Bin("==", ir.Field(ir.Param(0), l.Embedded), nilOf(l.Embedded.Type()))
+		var kept []*ir.Leaf
+		for _, lf := range leaves {
+			if !hasGuard(lf, embNil) {
+				kept = append(kept, lf)
+			}
+		}
+		leaves = kept
+	}
 	v3 := l.Version.Name == "v3"
 	recvNonNil := ir.Bin("!=", ir.Param(0), nilOf(l.Ptr()))
 	ge := l.Method("GetError")
